@@ -31,6 +31,10 @@ var errListerFault = errors.New("lister backend fault")
 func (l scriptedLister) ListAt(out []os.FileInfo, off int64) (int, error) {
 	call := atomic.AddInt32(l.calls, 1)
 	if l.failCall > 0 && call == l.failCall {
+		if call%2 == 0 {
+			// what io.ReadFull or a JSON decoder gives when the backend's answer is cut short: a failure, not the end of the listing
+			return 0, fmt.Errorf("lister backend: %w", io.ErrUnexpectedEOF)
+		}
 		return 0, errListerFault
 	}
 	if l.emptyAt > 0 && call == l.emptyAt && int64(len(l.names)) > off {
